@@ -38,7 +38,8 @@ def always_failing_assert(st):
 class BlockChecker:
     """Walk a block under a constant environment; report aborting arms and use-before-definition."""
 
-    def __init__(self, ev, tracked):
+    def __init__(self, ev, tracked, track_env=False):
+        self.track_env = track_env
         self.ev = ev
         self.tracked = tracked
         self.problems = []      # (kind, node, text)
@@ -67,6 +68,8 @@ class BlockChecker:
             for n in ast.walk(st):
                 if isinstance(n, ast.Name) and isinstance(n.ctx, ast.Load) and n.id in self.tracked and n.id not in assigned:
                     self.problems.append(('unbound', n, 'name %r may be used before assignment' % n.id))
+            if isinstance(st, ast.Return):
+                return None             # block ends normally here
             if isinstance(st, ast.Raise):
                 self.problems.append(('abort', st, 'raise reachable'))
                 return None
@@ -81,8 +84,8 @@ class BlockChecker:
             for n in ast.walk(st):
                 if isinstance(n, ast.Name) and isinstance(n.ctx, ast.Store):
                     assigned.add(n.id)
-            if isinstance(st, (ast.For, ast.While, ast.With, ast.Try)):
-                pass
+            if self.track_env and isinstance(st, ast.Assign) and len(st.targets) == 1 and isinstance(st.targets[0], ast.Name):
+                self.ev.env[st.targets[0].id] = self.ev.ev(st.value)
         return assigned
 
 
